@@ -256,6 +256,9 @@ def worker_main(argv):
                     sys.stdout = io.StringIO()
     finally:
         sys.stdout = real_stdout
+    # additive counters a property module keeps for its evidence (module attribute COUNTS: name -> int)
+    for k, v in sorted(getattr(mod, 'COUNTS', {}).items()):
+        agg.count(k, v)
     with open(outfile, 'w') as f:
         json.dump(agg.dump(), f)
 
